@@ -617,6 +617,11 @@ func (db *DB) flush(o Object) (err error) {
 	var pending Object
 	var ok bool
 
+	// the collection must be usable, as for any other call
+	if _, err = db.schema(o); err != nil {
+		return
+	}
+
 	// what has to reach the disk is the version of the Object which was
 	// accepted and waits to be written, whatever the Object of the caller
 	// holds by now (it may not even be stored anymore)
